@@ -33,7 +33,7 @@ package capacity
 //@   requires size-range: 0 <= currentSize && currentSize <= targetSize && targetSize <= 4611686018427387904
 //@   loop i invariant reversed: tmpLen == 3 && len(allowedBL) == 3 && ((i == 0 && allowedBL[0] == 24 && allowedBL[1] == 26 && allowedBL[2] == 28) || (i == 1 && allowedBL[0] == 28 && allowedBL[1] == 26 && allowedBL[2] == 24))
 //@   loop bl invariant lengths: len(allowedBL) == 3 && allowedBL[0] == 28 && allowedBL[1] == 26 && allowedBL[2] == 24
-//@   loop bl invariant never-above-target: old(currentSize) <= currentSize && currentSize <= targetSize && (#rangeindex >= 0 ==> targetSize - currentSize < plotSz(allowedBL[#rangeindex]))
+//@   loop bl invariant never-above-target: old(currentSize) <= currentSize && currentSize <= targetSize && (#iter >= 1 ==> targetSize - currentSize < plotSz(allowedBL[#iter - 1]))
 //@   loop #3 invariant never-above-target: old(currentSize) <= currentSize && currentSize <= targetSize && (bl == 24 || bl == 26 || bl == 28) && len(allowedBL) == 3 && allowedBL[0] == 28 && allowedBL[1] == 26 && allowedBL[2] == 24
 //@   loop #3 decreases targetSize - currentSize
 //@   assert-at call generateNewWorkSpace disk-checked-and-fits: targetSize - currentSize >= 0 && (bl == 24 || bl == 26 || bl == 28)
@@ -55,7 +55,7 @@ package capacity
 //@   requires size-range: 0 <= currentSize && currentSize <= targetSize && targetSize <= 4611686018427387904
 //@   loop i invariant reversed: tmpLen == 3 && len(allowedBL) == 3 && ((i == 0 && allowedBL[0] == 24 && allowedBL[1] == 26 && allowedBL[2] == 28) || (i == 1 && allowedBL[0] == 28 && allowedBL[1] == 26 && allowedBL[2] == 24))
 //@   loop bl invariant lengths: len(allowedBL) == 3 && allowedBL[0] == 28 && allowedBL[1] == 26 && allowedBL[2] == 24
-//@   loop bl invariant never-above-target: old(currentSize) <= currentSize && currentSize <= targetSize && (#rangeindex >= 0 ==> targetSize - currentSize < plotSz(allowedBL[#rangeindex]))
+//@   loop bl invariant never-above-target: old(currentSize) <= currentSize && currentSize <= targetSize && (#iter >= 1 ==> targetSize - currentSize < plotSz(allowedBL[#iter - 1]))
 //@   loop #3 invariant never-above-target: old(currentSize) <= currentSize && currentSize <= targetSize && (bl == 24 || bl == 26 || bl == 28) && len(allowedBL) == 3 && allowedBL[0] == 28 && allowedBL[1] == 26 && allowedBL[2] == 24
 //@   loop #3 decreases targetSize - currentSize
 //@   assert-at call generateNewWorkSpaceByPath only-in-requested-directory: arg1 == path && (bl == 24 || bl == 26 || bl == 28)
